@@ -5,7 +5,8 @@
 // under the session limit) and its content as re-parsed from the bytes.
 // Line:  pack <ext 0|1> <addpath 0|1> ((fam idx plen pid kind asn ncomm med nhkind) ...)
 //   fam 1 = IPv4 unicast, 2 = IPv6 unicast; kind a|w|e; nhkind 0 = IPv4 next hop (NEXT_HOP attribute),
-//   1 = IPv6 global next hop in MP_REACH, 2 = global + link-local.
+//   1 = IPv6 global next hop in MP_REACH, 2 = global + link-local, 3 = IPv4 next hop in MP_REACH_NLRI only;
+//   optional 10th field xlen (unknown attribute), 11th nhi: which next-hop address (192.0.2.<1+nhi> / 2001:db8::<1+nhi>).
 // Out:   ok (<msg> ...) where msg = (size kind attrsid (w (idx plen pid)...) (n (idx plen pid)...) nh alen)
 package main
 
@@ -87,13 +88,22 @@ func mkPath(c sx.Node) *table.Path {
 	asn, ncomm, med, nhkind := c.At(5).Uint(), c.At(6).Uint(), c.At(7).Uint(), c.At(8).Uint()
 	attrs := []bgp.PathAttributeInterface{bgp.NewPathAttributeOrigin(0),
 		bgp.NewPathAttributeAsPath([]bgp.AsPathParamInterface{bgp.NewAs4PathParam(2, []uint32{uint32(asn)})})}
+	nhi := uint64(0)
+	if c.Len() > 10 {
+		nhi = c.At(10).Uint()
+	}
 	if fam == 1 && nhkind == 0 {
-		nh, _ := bgp.NewPathAttributeNextHop(netip.MustParseAddr("192.0.2.1"))
+		nh, _ := bgp.NewPathAttributeNextHop(netip.AddrFrom4([4]byte{192, 0, 2, byte(1 + nhi)}))
 		attrs = append(attrs, nh)
 	} else {
-		nhs := []netip.Addr{netip.MustParseAddr("2001:db8::1")}
+		nhs := []netip.Addr{netip.MustParseAddr(fmt.Sprintf("2001:db8::%d", 1+nhi))}
 		if nhkind == 2 {
-			nhs = append(nhs, netip.MustParseAddr("fe80::1"))
+			nhs = append(nhs, netip.MustParseAddr(fmt.Sprintf("fe80::%d", 1+nhi)))
+		}
+		if nhkind == 3 {
+			// an IPv4 route whose IPv4 next hop is carried in MP_REACH_NLRI only (as learned from a peer that sends
+			// AFI 1 / SAFI 1 in MP_REACH_NLRI): no NEXT_HOP attribute
+			nhs = []netip.Addr{netip.AddrFrom4([4]byte{192, 0, 2, byte(1 + nhi)})}
 		}
 		mp, err := bgp.NewPathAttributeMpReachNLRI(rf, []bgp.PathNLRI{pn}, nhs...)
 		if err != nil {
@@ -155,6 +165,14 @@ func describe(m *bgp.BGPMessage, opt *bgp.MarshallingOption, ap bool) string {
 func content(u *bgp.BGPUpdate, ap bool) string {
 	asn, ncomm, med, alen, xlen := "-", 0, "-", 0, 0
 	nh := "-"
+	nhi := -1 // which next-hop address the message carries (the last octet of the address, minus one)
+	last := func(a netip.Addr) int {
+		b := a.AsSlice()
+		if len(b) == 0 {
+			return -1
+		}
+		return int(b[len(b)-1]) - 1
+	}
 	var reach, unreach string
 	for _, a := range u.PathAttributes {
 		switch v := a.(type) {
@@ -171,11 +189,16 @@ func content(u *bgp.BGPUpdate, ap bool) string {
 			alen += a.Len()
 		case *bgp.PathAttributeNextHop:
 			nh = "v4"
+			nhi = last(v.Value)
 			alen += a.Len()
 		case *bgp.PathAttributeMpReachNLRI:
 			nh = "v6"
+			nhi = last(v.Nexthop)
 			if v.LinkLocalNexthop.IsValid() {
 				nh = "v6ll"
+				if last(v.LinkLocalNexthop) != nhi {
+					nhi = 100 + last(v.LinkLocalNexthop)
+				}
 			}
 			reach = nlriList("r", v.Value, ap)
 		case *bgp.PathAttributeMpUnreachNLRI:
@@ -193,7 +216,7 @@ func content(u *bgp.BGPUpdate, ap bool) string {
 	if len(u.PathAttributes) == 1 && unreach == "(u )" {
 		return "eor6"
 	}
-	return fmt.Sprintf("(attrs %s %d %s %s %d %d) %s %s %s %s", asn, ncomm, med, nh, alen, xlen, nlriList("w", u.WithdrawnRoutes, ap), nlriList("n", u.NLRI, ap), reach, unreach)
+	return fmt.Sprintf("(attrs %s %d %s %s %d %d %d) %s %s %s %s", asn, ncomm, med, nh, alen, xlen, nhi, nlriList("w", u.WithdrawnRoutes, ap), nlriList("n", u.NLRI, ap), reach, unreach)
 }
 
 func run(line string) (out string) {
